@@ -51,11 +51,15 @@ CLAIMED = {
                 "empty or cancels it before freeing the file object and returns non-zero when requests were pending; "
                 "(5) in every function reachable from the public API, each heap object allocated there (directly, or "
                 "returned / handed out by a callee) is released, returned or stored in a longer-lived structure on "
-                "every explored path, failure paths included. Not decided: MPI objects (datatypes, communicators, "
-                "info) as resources, leaks that need an allocation or MPI failure, the 16 functions over the state "
-                "budget (frozen list; treated as capturing), isolation between files.",
+                "every explored path, failure paths included; (6) every MPI datatype created into a local variable is "
+                "released, handed on or stored on every path (typestate over the datatype variables only, so no function is "
+                "excluded); (7) destructors release a field unconditionally or under that field's own NULL test, "
+                "release-on-empty tests see the count after the removal, and the sites that release one kind of object "
+                "release the same owned parts. Not decided: communicators, info objects and file handles as resources, "
+                "leaks that need an allocation or MPI failure, the 16 functions over R3.leak's state budget (frozen list; "
+                "treated as capturing), isolation between files.",
         "note": "Single-threaded build. R3.leak assumes allocation and MPI calls succeed; four reports are discharged by "
-                "reasoned predicates whose side conditions are re-tested (DESIGN 10.5a). Found and fixed: F-C17-2..4.",
+                "reasoned predicates whose side conditions are re-tested (DESIGN 10.5a). Found and fixed: F-C17-2..12.",
         "design_ref": "DESIGN.md section 3 / C17, rule R3 (clauses 1, 4, 5)",
     },
     "C05": {
@@ -69,7 +73,10 @@ CLAIMED = {
                 "without a header write marks NC_NDIRTY; a put ending with NC_ERANGE still grows the count; "
                 "end_indep_data/sync/redef/close reach ncmpio_sync_numrecs; the newnumrecs scan covers the whole "
                 "pending queue; the header snapshot of a redefinition is taken after the record count has been "
-                "synchronised. Equality of the count across ranks at run time and the on-disk value are not decided.",
+                "synchronised; the MPI_MAX reduction of the wait path covers the array slot the record count travels in; "
+                "NC_lead_req.max_rec (what the new count is derived from) accumulates with MAX inside per-segment loops, its "
+                "closed forms equal highest record + 1 (evaluated on a small grid) and req_commit folds it with MAX. "
+                "Equality of the count across ranks at run time and the on-disk value are not decided.",
         "note": "assume_mpi_ok for communication calls; field NC.numrecs identified by struct/field identity from clang.",
         "design_ref": "DESIGN.md section 3 / C05",
     },
@@ -87,7 +94,11 @@ CLAIMED = {
                 "requests are one expression. Two bounded rules evaluate slices in the analyser: extract_reqs selects "
                 "exactly the lead requests named by the non-NULL ids (small queues and id lists, NC_REQ_NULL "
                 "included); the interleave flag computed by req_aggregation equals a pairwise overlap model on small "
-                "sorted offset lists. It does not decide equality of file contents with blocking execution.",
+                "sorted offset lists; ncmpio_add_record_requests, evaluated whole, yields one sub-request per record at "
+                "start + r*stride with its own buffer slice; merge_requests in its read form leaves every get request's "
+                "bytes in that request's buffer after the read and the copies it records (overlapping reads), and its caller "
+                "carries the copies out after ncmpio_read_write. It does not decide equality of file contents with blocking "
+                "execution.",
         "note": "assume_mpi_ok; queue fields identified by struct NC field identity; the sorted-insert exception for "
                 "nonlead_off is path-conditioned, not blanket.",
         "design_ref": "DESIGN.md section 3 / C02, rules R5, R6",
@@ -169,7 +180,11 @@ CLAIMED = {
                 "(CDF-5); and, over ~960 library functions with interprocedural release summaries per return-value "
                 "class, no heap object is released twice or dereferenced after release on any explored path; no "
                 "scalar local is read across a goto taken before its initialisation (a bound "
-                "on a word already converted to a signed or narrower type does not count as a bound on the word). It "
+                "on a word already converted to a signed or narrower type does not count as a bound on the word); the "
+                "object pointer arrays the destructors walk are zero-initialised or counted cell by cell; every attribute "
+                "element count the reader accepts has an external size below 2^63 (hdr_get_NC_attr evaluated for every "
+                "version x type x a dictionary of extreme words); the intra-node aggregation groups and the copy of their "
+                "rank ids stay inside the node's rank list (bounded). It "
                 "does not decide absence of undefined behaviour in general, typed access to byte-sliced buffers, or "
                 "resource proportionality; 7 oversized functions are outside the release analysis (frozen list).",
         "note": "field identities from clang; LATER table: NC_var.len (dead), NC_var.begin (ncmpio_NC_check_voffs).",
@@ -188,7 +203,9 @@ CLAIMED = {
                 "exactly the byte ranges of the addressed elements in packed-buffer order, and merge_requests keeps "
                 "exactly the requested bytes, sorted and disjoint, first request winning (both bounded, against "
                 "independent models), and a request classified contiguous by is_request_contiguous is one run of "
-                "consecutive elements (every request of six small shapes): writes stay inside the requested region. Offset arithmetic of accepted requests "
+                "consecutive elements (every request of six small shapes); ncmpio_add_record_requests splits a multi-record "
+                "request into exactly the records start + r*stride (whole function, bounded), and where the record dimension "
+                "is dropped every per-dimension array handed on is advanced: writes stay inside the requested region. Offset arithmetic of accepted requests "
                 "beyond these slices is not decided.",
         "note": "mput/mget examined with nvars >= 1; nprocs > 1 on the collective zero-length branch.",
         "design_ref": "DESIGN.md section 3 / C15",
@@ -204,7 +221,10 @@ CLAIMED = {
                 "change only after driver success; user names are UTF-8 normalised before lookup/insert in the 13 "
                 "name-taking driver entries; ncmpio_copy_att tests the mode of and rewrites the header of the "
                 "destination file; data-mode rename/put_att/copy_att pass through ncmpio_write_header on every "
-                "successful changing path. Hash arithmetic, id renumbering and value conversion are not decided.",
+                "successful changing path; every cached name_len is the length of the stored name; the data-mode "
+                "in-place tests (NC_ENOTINDEFINE on rename / put_att / copy_att) compare a field the header size function "
+                "reads (name_len, xsz) with the value that replaces it. Hash arithmetic, id renumbering and value "
+                "conversion are not decided.",
         "note": "MPI calls and allocations succeed; object kinds identified by clang record identity.",
         "design_ref": "DESIGN.md section 3 / C07",
     },
@@ -253,7 +273,8 @@ CLAIMED = {
                 "configuration that must not change results): offsets/lengths/buffer-address arrays are swapped and "
                 "compacted together; flatten_subarray and the record loop of flatten_req address exactly the elements "
                 "of a (start,count,stride) request, and the overlap merge keeps exactly the requested bytes with the "
-                "first request winning (bounded grids, compared with independent models). Equality of file content / "
+                "first request winning (bounded grids, compared with independent models); where the record dimension "
+                "is dropped (ndims--) every per-dimension array handed on with the reduced count is advanced. Equality of file content / "
                 "read data / error codes across configurations in general is differential and is NOT decided; independence of the collective "
                 "structure from safe mode and process count is decided under C08.",
         "note": "The consumer-domain table is hand-confirmed from the consumers (hash & (size-1), D_RNDUP, "
@@ -292,7 +313,9 @@ CLAIMED = {
                 "size function (reported header size, buffer size, start of data) adds up exactly those fields with "
                 "the widths handed to the right parameters; list tags / ABSENT / magic constants and the vsize "
                 "saturation constant are the specified ones; a clobbering create unlinks or truncates an existing "
-                "file before opening. Which values go into the fields, the data areas and the layout invariants "
+                "file before opening; every cached name_len - which the size function and the encoder read instead of the "
+                "string - is the length of the string stored as the object's name (13 store sites incl. the callers of the "
+                "two constructors). Which values go into the fields, the data areas and the layout invariants "
                 "under arbitrary schemas are NOT decided here (limits: C18; moves: C06; data-mode rewrite: C07).",
         "note": "Version branches are decided per version; error-status branches take the success side; RUNs and loops may "
                 "be empty. Byte-level padding arithmetic is not part of the token abstraction.",
